@@ -31,6 +31,8 @@ def shards(tier, seed):
 
 
 def cases(shard, rnd):
+    if shard['what'] != 'headers' and shard['name'].endswith('0'):
+        yield {'t': 'deep_probe'}
     if shard['what'] == 'headers':
         if shard['axes']:
             for pos in range(7):
@@ -143,6 +145,36 @@ def run_case(case, rec):
     from pamqp import body, commands, frame, header, heartbeat
     rec.ev()
     t = case['t']
+    if t == 'deep_probe':
+        # frames as deep as the encoder accepts: peek agrees, decoder accepts
+        for via in ('F', 'AF'):
+            def enc(depth):
+                c = call(commands.Queue.Declare, queue='q',
+                         arguments=common.chain(depth, via))
+                return common.lib_marshal(c.value, 3) if c.ok else c
+            lo = common.deepest_accepted(enc)
+            if lo is None:
+                continue
+            for depth in common.probe_depths(lo):
+                m = enc(depth)
+                if not m.ok:
+                    continue
+                F = m.value
+                p_ = call(frame.frame_parts, F)
+                u = common.lib_unmarshal(F)
+                if not p_.ok or p_.value[2] is None or \
+                        p_.value[2] + 8 != len(F) or not u.ok or \
+                        u.value[0] != len(F) or u.value[1] != 3:
+                    rec.violation('peek-buffer-refused:deep:%s' % (
+                        u.exc_type or 'mismatch'),
+                        'Queue.Declare with arguments nested %d deep (the '
+                        'encoder accepts up to %d): the frame the encoder '
+                        'produced is not accepted by the decoder (%s)'
+                        % (depth, lo, u.describe()[:100] if not u.ok
+                           else 'wrong envelope'), case)
+                    return
+                rec.count('deepest_frames_ok')
+        return
     if t == 'rxbuf':
         # ONE mutable receive buffer, peeked, changed in place (consumed from
         # the front, appended to, overwritten, emptied) and peeked again: the
